@@ -27,8 +27,12 @@ def generate(rng, tier):
                 ma = r.choice([1.0, 2.5, 1e-3])
                 mb = ma + r.choice([0.0, 5e-11, -5e-11, 9.9e-11, 1.01e-10, -1.01e-10, 2e-10])
                 a = P.add('GNewAngle', P.f(ma), P.add('GAngle', a)); b = P.add('GNewAngle', P.f(mb), P.add('GAngle', b))
+            elif r.chance(0.35):
+                # the magnitude difference hits the 1e-10 cancellation threshold exactly (+- ulps), either order
+                ma, mb = eps_apart(r)
+                a = P.add('GNewAngle', P.f(ma), P.add('GAngle', a)); b = P.add('GNewAngle', P.f(mb), P.add('GAngle', b))
             s = P.add('GAdd', r.below(4), a, b); sw = P.add('GAdd', r.below(4), b, a)
-            preds = [('add_opposite', [a, b, s]), ('add_opposite', [b, a, sw]), ('canon_geonum', [s])]
+            preds = [('add_opposite', [a, b, s]), ('add_opposite', [b, a, sw]), ('canon_geonum', [s]), ('canon_geonum', [sw])]
         else:
             P2 = P
             ma, mb = mag_pair(r, False)
